@@ -125,7 +125,7 @@ PROPS = {
             "modelled, not verified: Bevy ECS (change detection as one logical clock, iteration orders as multisets, required components, observers), Bevy's Events<E> double buffer and its ageing schedule (a nondeterministic input of the model), "
             "postcard encodings of the harness's event types, the transport (ordered reliable channels deliver once and in order: the harness is the network); RepliconTick wrap-around inside the client event queue is not modelled",
         ],
-        "assumptions": ["The theorems are per side (server buffer, client queue, client send cursor); the transport's exactly-once/in-order delivery on ordered channels is an assumption about the backend (checked for the example backend by C12). A client that connects between an event's emission and the server frame that reads it counts as connected before the event was sent (the event is sent in that frame)."],
+        "assumptions": ["The theorems are per side (server buffer, client queue, client send cursor); the transport's exactly-once/in-order delivery on ordered channels is an assumption about the backend (checked for the example backend by C17). A client that connects between an event's emission and the server frame that reads it counts as connected before the event was sent (the event is sent in that frame)."],
     },
     "C13": {
         "modules": ["Replicon.Props.C13"],
@@ -161,7 +161,7 @@ PROPS = {
         "profiles": [{"name": "sys_junk", "shards": {"thorough": 8}}],
         "rule": SYS_RULE + LOCK + "Profile sys_junk (C06): a live server with an attacker (client 0, authorized or not: AuthMethod::None / Custom / ProtocolCheck) and a well-behaved client 1. Byte strings are injected with RepliconServer::insert_received on every client channel (acknowledgements, ProtocolHash trigger, ordered u32 event, mapped event with an Entity, trigger with targets): exhaustively all strings of length 0..1 (quick) / 0..2 (thorough) on every channel from an authorized and from an unauthorized attacker, plus structure-aware mutations of well-formed messages (truncation, extension, bit flips, extreme varints, oversized length prefixes, overflowing generations). Every server frame that processes injected bytes runs under catch_unwind with a size-recording global allocator. Oracles on the implementation: no panic; the process does not die (a trace that ends inside a case is reported with the case as replay); the largest single allocation of such a frame is <= 64 KiB + 64 x injected bytes; after the final flush client 1 has converged (the C01/C02/C03 oracles, re-labelled C06). Model vs implementation: the events server-side logic observes (payload, referenced entities, sender) are compared with Recv.receive on the same bytes; acknowledgements go through the server model's ack_mutate_message.",
         "trusted_extra": [
-            "modelled, not verified: the Rust allocator and Vec growth, Bevy's event/observer machinery after an event is accepted, user-supplied deserializers of other event types, the transport framing (C12); a ProtocolHash message that decodes but is not the real one ends the session and switches the lock-step models off for the rest of that case",
+            "modelled, not verified: the Rust allocator and Vec growth, Bevy's event/observer machinery after an event is accepted, user-supplied deserializers of other event types, the transport framing (C17); a ProtocolHash message that decodes but is not the real one ends the session and switches the lock-step models off for the rest of that case",
         ],
         "assumptions": ["The theorems cover the decoders of the harness's channel kinds (fixint u16 acks, postcard varints, replicon's entity codec, Bevy's Entity::try_from_bits, trigger target lists); other event types use the same primitives plus serde-derived code that is not modelled."],
     },
@@ -435,7 +435,7 @@ MANIFEST_TEXT = {
     "C05": {
         "text": "Lean theorems about the event model: recipients of a dependent event are exactly the connected, authorized, not-excluded clients the mode selects (C05_recipients, C05_modes), of an independent one every selected connected client (C05_recipients_independent); one message per client and event, in buffering order (C05_once_per_client, C05_server_order); a flush leaves nothing to send again (C05_not_again); a client that connected after buffering never gets the event, whatever happens later (C05_late_joiner); the client queue loses and duplicates nothing and keeps arrival order (C05_client_exactly_once, C05_client_order, C05_queue_sorted); a client event goes on the wire at most once over any history, in emission order (C05_client_event_once); the sender identity is the transport's (C05_sender_identity).",
         "design_ref": "DESIGN.md §7 C05",
-        "note": "Transport behaviour (exactly once, in order on ordered channels) is an assumption checked for the example backend by C12.",
+        "note": "Transport behaviour (exactly once, in order on ordered channels) is an assumption checked for the example backend by C17.",
         "technique": "Lean 4 proof (theorems about executable models of the event buffers, queues and run conditions) + lock-step model/implementation correspondence on real traces + property oracle on the implementation",
     },
     "C13": {
